@@ -32,6 +32,7 @@ Proof.
   - unfold clear_programs in H. inversion H.
   - unfold arm_program in H. destruct (lookup name (regs st)); inversion H; auto.
   - unfold run_program in H. destruct (lookup name (regs st)); inversion H; auto.
+  - unfold update_parameters in H. destruct (lookup name (regs st)); inversion H; auto.
 Qed.
 
 (* ---- corollaries of the generator-side invariant ---------------------------------------------------------------- *)
